@@ -23,7 +23,12 @@ def eval_expr(
     if fs:
         ordered_symbols, fn = _lambdify_canonical(expr)
         data = [datamap[rv] for rv in ordered_symbols]
-        return fn(*data)
+        res = fn(*data)
+        if np.ndim(res) == 0:
+            # NOTE: The expression mentions data symbols but does not depend on them
+            # (e.g. WGT - WGT), so the compiled function returns one number
+            res = np.full(datasize, float(res))
+        return res
 
     return np.full(datasize, float(expr))
 
